@@ -779,7 +779,8 @@ def c09(sc, V):
                 f.append({"sig": "live-but-reaped", "step": s.n, "msg": "%r" % unann})
             # with nothing in flight a `kill` event means the worker is gone (the stop signal is followed by SIGKILL):
             # a subscriber drops the pid from its live set when it sees the event
-            wrongly = [p for p in live if p in kill_ev and a.kernel.get(p, ("g", 0))[0] == "r"]
+            wrongly = [p for p in live if p in kill_ev and a.kernel.get(p, ("g", 0))[0] == "r" and
+                       not _sigkilled_before(V, s.n, p)]      # SIGKILLed = dying, whatever the kernel's bookkeeping shows
             if wrongly:
                 f.append({"sig": "kill-event-for-surviving-worker", "step": s.n,
                           "msg": "pids %r were announced killed but are running and listed with nothing in flight" % sorted(wrongly)})
